@@ -314,6 +314,51 @@ func rulesC14b(p *Prog, r *Report) {
 							}
 						}
 					}
+					// the stored value was captured from the enclosing function (the store sits in a closure, deferred
+					// or called): continue at the closure's binding — the save is the store into the captured variable,
+					// and the closure runs after whatever the enclosing function calls behind that save
+					if msg == "" && f.Parent() != nil {
+						par := f.Parent()
+						for _, fv := range capturedVarsOf(st.Val, map[ssa.Value]bool{}) {
+							idx := -1
+							for i, x := range f.FreeVars {
+								if x == fv {
+									idx = i
+								}
+							}
+							for _, pb := range par.Blocks {
+								for _, pin := range pb.Instrs {
+									mc, ok := pin.(*ssa.MakeClosure)
+									if !ok || mc.Fn != ssa.Value(f) || idx < 0 || idx >= len(mc.Bindings) {
+										continue
+									}
+									for _, pb2 := range par.Blocks {
+										for _, pin2 := range pb2.Instrs {
+											sv, ok := pin2.(*ssa.Store)
+											if !ok || sv.Addr != mc.Bindings[idx] {
+												continue
+											}
+											for _, ld := range cursorLoadsOf(sv.Val, fa.Field, sty, map[ssa.Value]bool{}) {
+												for _, pb3 := range par.Blocks {
+													for _, pin3 := range pb3.Instrs {
+														ci, ok := pin3.(ssa.CallInstruction)
+														if !ok {
+															continue
+														}
+														for _, c := range scc.calleesAt(ci) {
+															if scc.rec[c] && instrReaches(ld, ci) {
+																msg = fmt.Sprintf("%s.%s is set back at %s, inside a closure of %s, to the value that function saved at %s; the call to %s at %s (a member of a recursive cycle) runs after that save: whatever it consumed is parsed again, and nested groups repeat this at every level", shortType(tname), fld.Name(), p.pos(st.Pos()), par.Name(), p.pos(ld.Pos()), c.Name(), p.pos(ci.Pos()))
+															}
+														}
+													}
+												}
+											}
+										}
+									}
+								}
+							}
+						}
+					}
 					if msg != "" {
 						r.Bad("C5", key, p.pos(st.Pos()), msg)
 					} else {
@@ -510,6 +555,37 @@ func reachableLoose(p *Prog, f *ssa.Function) bool {
 
 // cursorLoadsOf: the loads of field #field of struct sty that v is computed from (through
 // arithmetic, phis and conversions).
+// capturedVarsOf: the free variables (captured by reference) whose loaded value v is computed from.
+func capturedVarsOf(v ssa.Value, seen map[ssa.Value]bool) []*ssa.FreeVar {
+	if seen[v] {
+		return nil
+	}
+	seen[v] = true
+	switch t := v.(type) {
+	case *ssa.UnOp:
+		if t.Op == token.MUL {
+			if fv, ok := t.X.(*ssa.FreeVar); ok {
+				return []*ssa.FreeVar{fv}
+			}
+			return nil
+		}
+		return capturedVarsOf(t.X, seen)
+	case *ssa.BinOp:
+		return append(capturedVarsOf(t.X, seen), capturedVarsOf(t.Y, seen)...)
+	case *ssa.Phi:
+		var out []*ssa.FreeVar
+		for _, e := range t.Edges {
+			out = append(out, capturedVarsOf(e, seen)...)
+		}
+		return out
+	case *ssa.Convert:
+		return capturedVarsOf(t.X, seen)
+	case *ssa.ChangeType:
+		return capturedVarsOf(t.X, seen)
+	}
+	return nil
+}
+
 func cursorLoadsOf(v ssa.Value, field int, sty *types.Struct, seen map[ssa.Value]bool) []*ssa.UnOp {
 	if seen[v] {
 		return nil
